@@ -51,6 +51,29 @@ Theorem C09_macro_at_that_moment :
 Proof. intros opid. exact (@macro_at_that_moment opid). Qed.
 Print Assumptions C09_macro_at_that_moment.
 
+(* captures at that moment: the state in which a matched value's actions run (and in which
+   C09_macro_at_that_moment expands %{tx.N}) is the state after CaptureField was applied to every
+   field the operator reported for THAT value — including the empty string of a group that did
+   not participate, which therefore clears an earlier value's capture *)
+Theorem C09_captures_at_that_moment :
+  forall (opid : Type) (op_eval : opid -> env -> st -> bytes -> bool * list (N * bytes))
+         (e : env) (l : link opid) (lvl : nat) (o : opid) (neg : bool) (vn key carg : bytes)
+         (r : list (bytes * bytes * bytes)) (s : st) (acc : list mdata),
+  eval_cands op_eval e l lvl o neg ((vn, key, carg) :: r) s acc =
+    (let '(res, caps) := op_eval o e s carg in
+     let s1 := apply_caps caps s in
+     if xorb res neg then
+       let s2 := on_match e l lvl true vn key carg s1 in
+       eval_cands op_eval e l lvl o neg r s2
+         (mk_md e l (negb (l_parent l =? 0)%Z || negb (l_haschain l)) vn key carg s2 :: acc)
+     else eval_cands op_eval e l lvl o neg r s1 acc)
+  /\ (forall caps i v, s_capture s = true -> NoDup (map fst caps) -> In (i, v) caps ->
+        exists rest, tx_get (s_tx (apply_caps caps s)) (itoa i) = v :: rest).
+Proof.
+  intros. split; [apply eval_cands_step | intros caps i v; apply apply_caps_get].
+Qed.
+Print Assumptions C09_captures_at_that_moment.
+
 (* exact accounting: a counter that every action either cannot reach or moves by a literal +N / -N
    ends the transaction at its initial value plus, over the rules evaluated in order and over the
    links of each, (matched values of the link) x (delta of the link) — provided the absolute sum
